@@ -19,9 +19,14 @@ Legs (all execute the real solvers through `eq.solve(..., tracker=None)`):
   malformed : noise arrays that cannot be broadcast, unknown interpretation, implicit solver with the
               realization interface, adaptive stepping: an error is expected.
 Monitors on the real code for every case: (1) an independent numpy re-statement of the documented update
-applied step by step with the twin's draws, (2) two runs with the same seed are bit-identical, (3) the
-equation's generator ends in the state of the twin after exactly n draws, (4) entries with vanishing
-variance follow the deterministic run exactly."""
+applied step by step with the twin's draws (semi-implicit solver: the fixed point of
+`x = u + sqrt(var*dt/V)*xi + dt*rate(x)` for tight `maxerror`, the documented iteration with the documented
+stopping rule otherwise - every converged case is judged; a ConvergenceError must be matched by the documented
+iteration not converging), (2) two runs with the same seed are bit-identical, (3) the equation's generator ends
+in the state of the twin after exactly n draws, (4) entries with vanishing variance follow the deterministic run
+exactly, (5) step count, (6) a valid case never raises.  Comparisons are written so that a non-finite value
+counts as a difference.  Every case carries its execution mode (`jit` flag: compiled, otherwise numba source
+semantics under NUMBA_DISABLE_JIT=1); `replay` re-runs the recorded case in a fresh interpreter in that mode."""
 import math
 
 import numpy as np
@@ -52,7 +57,13 @@ ASSUMPTIONS = [
     "the numpy Generator itself is external: the twin generator is the same numpy code seeded identically",
     "numba backend: exact replay relies on numba's generator reproducing numpy's legacy stream (self-tested per run; "
     "statistical bounds otherwise)",
-    "the semi-implicit solver does not read noise_interpretation (observation, modelled as is)",
+    "reading of C13's parenthesis for the semi-implicit solver: 'the same increment' is the noise increment "
+    "sqrt(variance*dt/cell volume)*xi added to the state the fixed-point iteration starts from; the drift of the "
+    "Stratonovich/anti-Ito interpretations is claimed for the explicit solvers only.  The real semi-implicit solver "
+    "never reads noise_interpretation (it integrates the Ito equation whatever was requested): modelled and monitored "
+    "as it is, reported as an observation (notes/C13.md), NOT judged as a violation under this reading",
+    "a semi-implicit run with a loose maxerror is judged against the documented iteration with the documented stopping "
+    "rule (mean squared change < maxerror**2, maxiter), not against the exact fixed point",
 ]
 TRUSTED_EXTRA = ["numpy.random.Generator / RandomState (external)", "IEEE double arithmetic and sqrt of Lean's Float equal numpy's"]
 
